@@ -106,9 +106,10 @@ def leanchecker(mods):
 
 # theorem files that serve several properties: the correctness of the (transcribed) noncontiguous
 # compiler turns Tie A's per-instance validation of that automaton into a theorem for all pattern lists
-EXTRA_THEOREMS = {"C01": ["L1c.lean", "L1cDense.lean", "L1cMem.lean"], "C02": ["L1c.lean", "L1cDense.lean", "L1cMem.lean"],
-                  "C03": ["L1c.lean", "L1cMem.lean"], "C19": ["L1c.lean", "L1e.lean"],
-                  "C04": ["L1d.lean", "L1e.lean", "L1dIds.lean"], "C11": ["L1cFold.lean", "L1dFold.lean", "L1eFold.lean", "L1dIdsFold.lean", "C07Fold.lean"],
+EXTRA_THEOREMS = {"C01": ["L1c.lean", "L1cDense.lean", "L1cMem.lean", "L1cMemCompile.lean"],
+                  "C02": ["L1c.lean", "L1cDense.lean", "L1cMem.lean", "L1cMemCompile.lean"],
+                  "C03": ["L1c.lean", "L1cMem.lean", "L1cMemCompile.lean"], "C19": ["L1c.lean", "L1e.lean"],
+                  "C04": ["L1d.lean", "L1e.lean", "L1dIds.lean", "L1Alphabet.lean"], "C11": ["L1cFold.lean", "L1dFold.lean", "L1eFold.lean", "L1dIdsFold.lean", "C07Fold.lean"],
                   "C16": ["L1d.lean", "L1e.lean", "L1dIds.lean", "L1cIds.lean"],
                   "C15": ["C06.lean", "L1dIds.lean", "L1eSafe.lean", "L1cIds.lean"],
                   "C08": ["C07Transfer.lean", "C07Fold.lean"], "C18": ["C07Transfer.lean", "C07Fold.lean"]}
